@@ -342,7 +342,7 @@ theorem specRun_attrEvents (F : Flattener π K) (hF : ChainedToEnd F) (n : Nat)
     (st : Option (AP π K × AP π K)) (s : FlatB π K) (prog : List (Call π (List K)))
     (hn : wellNestedFrom st.isSome prog = true) (hlen : attrsLen n prog = true)
     (hs : ∀ f c, st = some (f, c) → s.cur = c.1 ∧ s.prev = c.2 ∧ c.2.length = n) :
-    specFrom st ((FlatB.specRun F s prog).map aCall) = flatAttrIter F (specFrom st (prog.map aCall)) := by
+    specFrom st ((FlatB.specRun F s prog).map Adapt.aCall) = flatAttrIter F (specFrom st (prog.map Adapt.aCall)) := by
   induction prog generalizing st s with
   | nil => cases st <;> simp [FlatB.specRun, specFrom, flatAttrIter]
   | cons c r ih =>
@@ -353,7 +353,7 @@ theorem specRun_attrEvents (F : Flattener π K) (hF : ChainedToEnd F) (n : Nat)
         simp only [attrsLen, Bool.and_eq_true, beq_iff_eq] at hlen
         have := ih (some ((p, a), (p, a))) ⟨p, a⟩ (by simpa [wellNestedFrom] using hn) hlen.2
           (by intro f c h; cases h; exact ⟨rfl, rfl, hlen.1⟩)
-        simpa [FlatB.specRun, FlatB.specStep, specFrom, flatAttrIter, aCall] using this
+        simpa [FlatB.specRun, FlatB.specStep, specFrom, flatAttrIter, Adapt.aCall] using this
       | line p a => simp [wellNestedFrom] at hn
       | quad k p a => simp [wellNestedFrom] at hn
       | cubic k1 k2 p a => simp [wellNestedFrom] at hn
@@ -367,7 +367,7 @@ theorem specRun_attrEvents (F : Flattener π K) (hF : ChainedToEnd F) (n : Nat)
         simp only [attrsLen, Bool.and_eq_true, beq_iff_eq] at hlen
         have := ih (some (f, (p, a))) ⟨p, a⟩ (by simpa [wellNestedFrom] using hn) hlen.2
           (by intro f c h; cases h; exact ⟨rfl, rfl, hlen.1⟩)
-        simpa [FlatB.specRun, FlatB.specStep, specFrom, flatAttrIter, aCall] using this
+        simpa [FlatB.specRun, FlatB.specStep, specFrom, flatAttrIter, Adapt.aCall] using this
       | quad k p a =>
         simp only [attrsLen, Bool.and_eq_true, beq_iff_eq] at hlen
         obtain ⟨l, x, hlx⟩ := hF.1.1 c0.1 k p
@@ -376,7 +376,7 @@ theorem specRun_attrEvents (F : Flattener π K) (hF : ChainedToEnd F) (n : Nat)
           (by intro f c h; cases h; exact ⟨rfl, rfl, hlen.1⟩)
         have hend : endAP c0.2 a (c0.1, c0.2) (F.quad c0.1 k p) = (p, a) := by
           rw [hlx, endAP_snoc, interp_one c0.2 a (by rw [hl, hlen.1])]
-        simp only [FlatB.specRun, FlatB.specStep, List.map_append, hcur, hprev, List.map_cons, aCall,
+        simp only [FlatB.specRun, FlatB.specStep, List.map_append, hcur, hprev, List.map_cons, Adapt.aCall,
           specFrom, flatAttrIter]
         rw [show (c0 : AP π K) = (c0.1, c0.2) from rfl,
           specFrom_specLines f c0.1 c0.2 c0.2 a _ hch, hend, this]
@@ -388,14 +388,14 @@ theorem specRun_attrEvents (F : Flattener π K) (hF : ChainedToEnd F) (n : Nat)
           (by intro f c h; cases h; exact ⟨rfl, rfl, hlen.1⟩)
         have hend : endAP c0.2 a (c0.1, c0.2) (F.cubic c0.1 k1 k2 p) = (p, a) := by
           rw [hlx, endAP_snoc, interp_one c0.2 a (by rw [hl, hlen.1])]
-        simp only [FlatB.specRun, FlatB.specStep, List.map_append, hcur, hprev, List.map_cons, aCall,
+        simp only [FlatB.specRun, FlatB.specStep, List.map_append, hcur, hprev, List.map_cons, Adapt.aCall,
           specFrom, flatAttrIter]
         rw [show (c0 : AP π K) = (c0.1, c0.2) from rfl,
           specFrom_specLines f c0.1 c0.2 c0.2 a _ hch, hend, this]
       | end_ cl =>
         simp only [attrsLen] at hlen
         have := ih none s (by simpa [wellNestedFrom] using hn) hlen (by intro f c h; cases h)
-        simpa [FlatB.specRun, FlatB.specStep, specFrom, flatAttrIter, aCall] using this
+        simpa [FlatB.specRun, FlatB.specStep, specFrom, flatAttrIter, Adapt.aCall] using this
 
 /-- Flattening while building and `for_each_flattened` over the stored, unflattened path give the
 same stream INCLUDING attributes: for every well-nested program with `n` attributes, what
@@ -416,21 +416,22 @@ theorem wellFormed_chain [DecidableEq π] (f a : π) (l : List π) (b : π) (res
   | nil => simp [chain, wellFormedFrom]
   | cons p r ih => simpa [chain, wellFormedFrom] using ih p
 
-/-- `iterator::Flattened` maps a well-formed event stream (every edge starts where the previous
-one ended, `End` names the last and first point) to a well-formed one, when the curve iterators
-end at `to`.  (In f32 this needed lyon commit e20d2048 for cubics.) -/
-theorem flatIter_wellformed [DecidableEq π] (G : IterFlattener π) (hG : IterEndsAtTo G)
-    (evs : List (Event π)) (h : WellFormed evs) : WellFormed (flatIter G evs) := by
-  suffices H : ∀ st, wellFormedFrom st evs = true → wellFormedFrom st (flatIter G evs) = true from
-    H none h
-  induction evs with
-  | nil => intro st h; simpa [flatIter] using h
+theorem wellFormedFrom_flatIter [DecidableEq π] (G : IterFlattener π) (hG : IterEndsAtTo G)
+    (evs : List (Event π)) (st : Option (π × π)) (h : wellFormedFrom st evs = true) :
+    wellFormedFrom st (flatIter G evs) = true := by
+  induction evs generalizing st with
+  | nil => simpa [flatIter] using h
   | cons e r ih =>
-    intro st h
     cases st with
     | none =>
-      cases e <;> simp only [wellFormedFrom, flatIter] at h ⊢ <;> try (exact absurd h (by simp))
-      exact ih _ h
+      cases e with
+      | begin p =>
+        simp only [wellFormedFrom, flatIter] at h ⊢
+        exact ih _ h
+      | line a b => simp [wellFormedFrom] at h
+      | quad a k b => simp [wellFormedFrom] at h
+      | cubic a k1 k2 b => simp [wellFormedFrom] at h
+      | end_ l fst cl => simp [wellFormedFrom] at h
     | some fc =>
       obtain ⟨f, c⟩ := fc
       cases e with
@@ -440,17 +441,26 @@ theorem flatIter_wellformed [DecidableEq π] (G : IterFlattener π) (hG : IterEn
         exact ⟨h.1, ih _ h.2⟩
       | quad a k b =>
         simp only [wellFormedFrom, Bool.and_eq_true, beq_iff_eq] at h
+        obtain ⟨rfl, h2⟩ := h
         obtain ⟨l, hl⟩ := hG.1 a k b
-        simp only [flatIter, hl, h.1, wellFormed_chain]
-        exact ih _ h.2
+        rw [flatIter, hl, wellFormed_chain]
+        exact ih _ h2
       | cubic a k1 k2 b =>
         simp only [wellFormedFrom, Bool.and_eq_true, beq_iff_eq] at h
+        obtain ⟨rfl, h2⟩ := h
         obtain ⟨l, hl⟩ := hG.2 a k1 k2 b
-        simp only [flatIter, hl, h.1, wellFormed_chain]
-        exact ih _ h.2
+        rw [flatIter, hl, wellFormed_chain]
+        exact ih _ h2
       | end_ l fst cl =>
         simp only [wellFormedFrom, flatIter, Bool.and_eq_true] at h ⊢
         exact ⟨h.1, ih _ h.2⟩
+
+/-- `iterator::Flattened` maps a well-formed event stream (every edge starts where the previous
+one ended, `End` names the last and first point) to a well-formed one, when the curve iterators
+end at `to`.  (In f32 this needed lyon commit e20d2048 for cubics.) -/
+theorem flatIter_wellformed [DecidableEq π] (G : IterFlattener π) (hG : IterEndsAtTo G)
+    (evs : List (Event π)) (h : WellFormed evs) : WellFormed (flatIter G evs) :=
+  wellFormedFrom_flatIter G hG evs none h
 
 /-! ## Both nesting orders -/
 
